@@ -30,6 +30,7 @@ type FuncInfo struct {
 	RetOrd  map[*ast.ReturnStmt]int // return statements: ordinal (1-based, source order), closures excluded
 	DeclOrder []*types.Var // receiver, parameters, named results, then every local variable in order of declaration
 	NSigIn, NSigOut int    // how many of DeclOrder are receiver+parameters / named results
+	DeclTag map[*types.Var]string // loop role of a variable: "<ord>i" declared by the init statement of loop ord, "<ord>k" / "<ord>v" range key / value
 	NRets   int
 }
 
@@ -274,8 +275,45 @@ func (e *Engine) declOrder(fi *FuncInfo) {
 	})
 }
 
+// declTags: which variables are declared by loops (their role is stable under renaming and under added locals)
+func (e *Engine) declTags(fi *FuncInfo) {
+	fi.DeclTag = map[*types.Var]string{}
+	info := fi.Pkg.TypesInfo
+	tag := func(ex ast.Expr, t string) {
+		if id, ok := ex.(*ast.Ident); ok {
+			if v, ok := info.Defs[id].(*types.Var); ok {
+				fi.DeclTag[v] = t
+			}
+		}
+	}
+	for n, ord := range fi.Loops {
+		switch x := n.(type) {
+		case *ast.ForStmt:
+			if as, ok := x.Init.(*ast.AssignStmt); ok && as.Tok == token.DEFINE {
+				for k, l := range as.Lhs {
+					if k == 0 {
+						tag(l, fmt.Sprintf("%di", ord))
+					} else {
+						tag(l, fmt.Sprintf("%di%d", ord, k))
+					}
+				}
+			}
+		case *ast.RangeStmt:
+			if x.Tok == token.DEFINE {
+				if x.Key != nil {
+					tag(x.Key, fmt.Sprintf("%dk", ord))
+				}
+				if x.Value != nil {
+					tag(x.Value, fmt.Sprintf("%dv", ord))
+				}
+			}
+		}
+	}
+}
+
 func (e *Engine) indexAnchors(fi *FuncInfo) {
 	e.declOrder(fi)
+	e.declTags(fi)
 	fi.Anchors = map[ast.Stmt][]string{}
 	fi.CallOrd = map[string]int{}
 	fi.GotoOrd = map[*ast.BranchStmt]int{}
